@@ -740,10 +740,6 @@ static void conf_parse_entry(struct conf_parse *parse, struct conf_node_object *
             node = conf_parse_get_child(parent, name, CONF_STRING, sizeof(*node));
             xfree(node->value);
             node->value = string;
-            if ((ch == '}') && (parent != &parse->root)) {
-                parse->curr--;
-                return;
-            }
         } else if (ch == ',') {
             struct conf_node_string_list *node;
             struct string_vector new_value;
@@ -756,16 +752,20 @@ static void conf_parse_entry(struct conf_parse *parse, struct conf_node_object *
                 ch = conf_parse_whitespace(parse, 1);
                 if (ch == '\0')
                     longjmp(parse->env, PARSE_PREMATURE_EOF);
-                if (ch == '\n')
+                if (ch == '\n') {
+                    parse->curr--;
                     break;
+                }
                 parse->curr--;
                 value = conf_parse_string(parse);
                 string_vector_append(&new_value, value);
                 ch = conf_parse_whitespace(parse, 1);
                 if (ch == '\0')
                     longjmp(parse->env, PARSE_PREMATURE_EOF);
-                if (ch == '\n' || ch == ';')
+                if (ch == '\n' || ch == ';' || ch == '}') {
+                    parse->curr--;
                     break;
+                }
                 if (ch != ',')
                     longjmp(parse->env, PARSE_EXPECTED_COMMA);
             }
@@ -785,6 +785,11 @@ static void conf_parse_entry(struct conf_parse *parse, struct conf_node_object *
         }
     }
     ch = conf_parse_whitespace(parse, 1);
+    if ((ch == '}') && (parent != &parse->root)) {
+        /* Last entry of an object: leave the '}' for our caller. */
+        parse->curr--;
+        return;
+    }
     if ((ch != ';') && (ch != '\n'))
         longjmp(parse->env, PARSE_EXPECTED_SEMICOLON);
 }
